@@ -137,6 +137,7 @@ def run_property(spec, tier, seed):
         for i, c in enumerate(cases):
             kinds[c.kind] = kinds.get(c.kind, 0) + 1
             il = st.canon(impl[i]) if st.canon else impl[i]
+            c.meta["impl"] = il            # known_class may look at what the implementation answered
             ml = None if model is None else (st.canon(model[i]) if st.canon else model[i])
             if st.nontrivial is None or st.nontrivial(c, il):
                 seen_nontrivial.add((st.name, c.rust))
@@ -189,6 +190,10 @@ def run_property(spec, tier, seed):
         try:
             out = core.run_harness(binary, w["mode"], [w["rust"]], "%s_witness_%s" % (pid, k["id"]),
                                    as_limit_gb=w.get("as_limit_gb"))[0]
+            for st in spec.streams:
+                if st.mode == w["mode"] and st.canon:
+                    out = st.canon(out)
+                    break
         except Exception as e:
             out = "harness-error %s" % e
         if match_expect(out, w.get("defect")):
